@@ -90,7 +90,9 @@ Print Assumptions C02_empty_header_no_blank_line.
    same header records (hence prints the same pragma lines in the same order),
    works with the layout (same column line), returns one record per record
    with the same (name, value) cells in the same order and no error, whose
-   slots equal the written record's and whose text is the written line; and
+   slots equal the written record's (name, index, class and value, error list;
+   `slot_view` leaves out only the identity of the column object) and whose
+   text is the written line; and
    writing rd's header and these records again gives the same text. *)
 Theorem C02_round_trip_layout :
   forall (C W K : Type) (sem : colsem C W) (registry : list (scheme (cls C)))
@@ -115,7 +117,8 @@ Theorem C02_round_trip_layout :
         hrecs (rd_header rd) = hrecs h /\ rd_scheme rd = Some s /\
         Forall2 (fun r' r => cells_of_rec (mcols r') = cells_of_rec (mcols r) /\ merrs r' = [])
                 (run_recs (rt_read rt)) rs /\
-        Forall2 (fun r' v => rlist (mcols r') = rlist (mcols v) /\ record_text sem r' = record_text sem v)
+        Forall2 (fun r' v => map (@slot_view C W) (rlist (mcols r')) = map (@slot_view C W) (rlist (mcols v)) /\
+                             record_text sem r' = record_text sem v)
                 (run_recs (rt_read rt)) (accepted_records w1) /\
         rt_second rt = Some w2 /\ wr_clean w2 = true /\ wr_text w2 = wr_text w1.
 Proof.
@@ -405,3 +408,60 @@ Theorem C02_value_hazard_refuted :
   option_map (@wr_text unit bool) (rt_second rt) = Some (wr_text (rt_first rt)).
 Proof. vm_compute. repeat split; reflexivity. Qed.
 Print Assumptions C02_value_hazard_refuted.
+
+(* ====================================================================== *)
+(* the built-in layouts, with the concrete column model                    *)
+(* ====================================================================== *)
+(* model/ColsemColumns.v makes the concrete columns (classes resolved by C3
+   over the regenerated class table, build / validate / str per defining
+   class; float() and uuid.UUID() an oracle `Or`) an instance of `colsem`;
+   proofs/FileIOColumns.v discharges `record_fixpoint` for it with C04's field
+   fixpoint and the layout premises with sweeps over the 14 layouts built from
+   the regenerated definitions (`layouts_ok`: every column class covered by
+   C04, names distinct and carriable).  What is left as premises: the oracle
+   laws; the header premise (parsed from lines free of CR/LF, its pragmas select
+   the layout); the records are what MafRecord.from_line returns without
+   validation error under the layout; C04's side condition `no_single_null` (a
+   one-element list whose element renders as the empty text only in a column of
+   a strict class - i.e. no single-[Null] list in SOMATIC / PHENO, the columns of
+   class SequenceOfNullableYesOrNo); the writer accepted everything; the
+   records are in the declared order. *)
+From Coq Require Import String.
+From MafVerif Require Import gen.GenClasses model.Classes model.Columns model.Layouts model.ColsemColumns
+  proofs.LayoutFacts proofs.RenderFacts proofs.FileIOColumns.
+
+Theorem C02_round_trip_builtin_layouts :
+  forall (Or : oracles), oracle_laws Or ->
+  forall (registry : list (scheme (cls cref))) (K : Type)
+         (key_of : sorder -> list str -> rec (payload cref pyval) -> res K) (key_lt : K -> K -> bool)
+         (l : layout) hl m0 lg0 l0 (h : header) (m : mode) (rs : list (mrec cref pyval)) (translate : bool),
+    In l layouts_ok ->
+    let sem := columns_sem class_table Or in
+    let s := scheme_of_layout l in
+    header_from_lines registry hl m0 lg0 = (l0, Ok h) -> Forall no_crlf hl ->
+    h_scheme registry (hrecs h) = Ok (Some s) ->
+    Forall (parsed_under class_table Or s) rs -> Forall (no_single_null class_table) rs ->
+    let w1 := write_file sem registry h (Some m) rs in
+    wr_clean w1 = true ->
+    in_declared_order key_of key_lt (hrecs h)
+      (map (fun v => reread_view sem s (mcols v)) (accepted_records w1)) ->
+    let rt := round_trip_of sem registry key_of key_lt h (Some m) rs translate in
+    exists rd w2,
+      run_init (rt_read rt) = Ok rd /\ run_end (rt_read rt) = EndStop /\
+      hrecs (rd_header rd) = hrecs h /\ rd_scheme rd = Some s /\
+      Forall2 (fun r' r => cells_of_rec (mcols r') = cells_of_rec (mcols r) /\ merrs r' = [])
+              (run_recs (rt_read rt)) rs /\
+      Forall2 (fun r' v => map (@slot_view cref pyval) (rlist (mcols r')) = map (@slot_view cref pyval) (rlist (mcols v)) /\
+                           record_text sem r' = record_text sem v)
+              (run_recs (rt_read rt)) (accepted_records w1) /\
+      rt_second rt = Some w2 /\ wr_clean w2 = true /\ wr_text w2 = wr_text w1.
+Proof.
+  intros Or HO registry K key_of key_lt l.
+  exact (round_trip_builtin_layouts Or HO registry K key_of key_lt l).
+Qed.
+Print Assumptions C02_round_trip_builtin_layouts.
+
+(* the side condition is vacuous for every class but one, and the layouts are
+   the 14 built from the regenerated definitions *)
+Example builtin_layout_count : List.length layouts_ok = 14%nat.
+Proof. vm_compute. reflexivity. Qed.
